@@ -707,6 +707,7 @@ func (x *Exec) stepValue(st *State, ins ssa.Instruction, v ssa.Value) bool {
 			// a non-nil interface is not distinguished (documented abstraction)
 			r := a
 			r.Ty = i.Type()
+			r.Dyn = i.X.Type()
 			if _, isPtr := i.X.Type().Underlying().(*types.Pointer); !isPtr {
 				// boxed non-pointer: fresh non-nil reference
 				s := x.fresh("iface", SInt)
@@ -1324,6 +1325,24 @@ func (x *Exec) loopEnv(st *State, head *ssa.BasicBlock) *Env {
 		if phi.Comment != "" {
 			if pv, ok := fr.vals[phi]; ok {
 				e.vars[phi.Comment] = pv
+			}
+		}
+	}
+	// the slice driving a `for i, v := range <expr>` loop is visible to invariants as rangeslice
+	if head.Comment == "rangeindex.loop" && len(head.Instrs) > 0 {
+		if phi, ok := head.Instrs[0].(*ssa.Phi); ok {
+			for _, b := range fr.fn.Blocks {
+				for _, ins := range b.Instrs {
+					ia, ok := ins.(*ssa.IndexAddr)
+					if !ok {
+						continue
+					}
+					if bo, ok := ia.Index.(*ssa.BinOp); ok && bo.X == ssa.Value(phi) {
+						if sv, ok := fr.vals[ia.X]; ok {
+							e.vars["rangeslice"] = sv
+						}
+					}
+				}
 			}
 		}
 	}
